@@ -5,6 +5,21 @@ HERE = os.path.dirname(os.path.dirname(os.path.abspath(__file__)))
 
 # id -> (engine, category, technique, text, note)
 CHECKS = {
+ "C18": ("proptest grammar generators + refmodel (JSON-RPC outcome + 6-field config model)", "exploration",
+         "property-based testing: grammar-generated and byte-mutated lines and line histories against an independent JSON-RPC reference model; differential between the stdin and socket entry points; thread stress in the thorough tier",
+         "For every generated line (requests from a grammar over methods x params x ids x versions, JSON of any shape, arbitrary bytes, truncated/mutated requests) dispatch returns without panic, any response is one well-formed JSON-RPC 2.0 object, requests with an id get exactly one response echoing the id with the predicted result or error code (-32700/-32600/-32601/-32602), notifications get none and are still applied; in histories the snapshot and the next get_status always show the model, the timeout stays clamped to 1000..60000 and is echoed as applied; dispatch() and dispatch_async() (with and without a subscription context) answer identically and leave equal configurations.",
+         "Left open on purpose: JSON that is not a request object, missing/non-string jsonrpc or method, id null, duplicate keys, numbers too large for the JSON library, subscription methods. Concurrency is a 4-thread stress (thorough), not schedule enumeration.",
+         "5/C18"),
+ "C19": ("proptest text grammar + E3 shellsim (real apply_connection_changes)", "exploration",
+         "property-based testing: generated file contents against an independent line splitter + IpAddr::from_str; generated reload sequences on a live shell with survivor/removed/added relations over a full state projection",
+         "Refuse iff no parsable line (and for a missing file), else exactly the parsable lines in order; applying a list keeps every still-listed link with identity, socket object, local port and full state projection (incl. guard state and queue contents) unchanged, removes exactly the unlisted links together with their I/O handle and every attribution record the ownership model says they owned, adds each new address exactly once with an I/O entry, forgets the routing choice when a link was removed; refused reloads change nothing.",
+         "IPv4 loopback aliases only in the apply tier. Order/phase of added links and first_invalid_line not asserted. Held on what was explored.",
+         "5/C19"),
+ "C20": ("E5: hub futures polled by hand over generated operation interleavings; real-thread tier (thorough)", "exploration",
+         "stateful property testing over generated interleavings with hand-polled futures (a blocking publish is a pending future); OS-thread stress for lock contention",
+         "A publish completes within 3 polls while nothing else runs whatever the state of the subscribers' channels (capacity 1..128, full, closed, never drained); every pushed line is a notification with method <topic>.update of the subscription's own topic and its own id, on its own connection; ids never repeat; per subscription each publisher's event numbers are strictly increasing; nothing published after an unsubscribe completed is delivered; closed receivers that met a publish are no longer counted and live ones are. Thorough: publisher threads finish while three subscribers never drain, observer sees per-publisher order, pruning count exact.",
+         "On one thread no task suspends while holding the hub lock, so interleavings are of whole operations; true parallel interleavings are only sampled (thorough). Delivery itself is not promised, delivered events are counted.",
+         "5/C20"),
  "C01": ("E3 shellsim (real handle_srt_packet / handle_uplink_packet / flush_all_batches / handle_housekeeping over loopback, virtual clock)", "exploration",
          "stateful property testing with a wire-log monitor: generated event-loop interleavings and faults; per-link queue equation wire ++ queue_after == queue_before ++ routed after every step",
          "For generated interleavings of the event loop's arms (client datagrams of every kind, length 1..1500 and sequence number incl. repeats; real uplink packets; flush ticks; housekeeping; clock steps; all batch regimes; send failures via EPIPE; re-registration) on 1..4 uplinks in both modes with the guard on/off: nothing is invented, corrupted, reordered per link or duplicated except counted probe copies on stall-gated links (<= ceil(n/100)); queue depth <= 32 after every step and 0 after a flush tick; a datagram leaves a queue without reaching the wire only on a link that failed or re-registered in that step; a datagram is refused only when no uplink is usable.",
